@@ -1037,6 +1037,25 @@ fn sweep_int_to_float(ctx: &mut Ctx) {
         rec.sample(|| format!("UBig/IBig {:#x}*2^{} + {{0, 1, 2^{}-1}}, both signs: to_f64, f64::try_from", m, k, k));
     });
     ctx.require_classes("int.to_f64", &["exact", "inexact:result-above", "inexact:result-below", "tie", "normal", "top-binade", "overflow", "try_from:ok", "try_from:refused"]);
+    // sparse values: top bit plus one or two low bits at every distance below it, so that each
+    // position of the round / sticky window is hit on its own (word, double-word and multi-word sizes)
+    let tops: Vec<u64> = (60..=70).chain(125..=135).chain(189..=200).chain([256, 1000]).collect();
+    let nt = tops.len() as u64;
+    ctx.sweep("int.to_float.sparse", nt * 90, |i, rec| {
+        let [it, d] = unflatten(i, [nt, 90]);
+        let n = tops[it];
+        let d = d as u64 + 1;
+        if d > n {
+            return;
+        }
+        let top = BigUint::one() << n;
+        let low = BigUint::one() << (n - d);
+        for v in [&top + &low, &top - &low, &top + &low + 1u8, (&top + &low) | (BigUint::one() << (n / 2)), &top + &low + (&low >> 1)] {
+            int_to_float_case::<f64>(rec, &v);
+            int_to_float_case::<f32>(rec, &v);
+        }
+        rec.sample(|| format!("2^{} +- 2^{} (+ lower bits), both signs: to_f32/to_f64", n, n - d));
+    });
 }
 
 // ---------------------------------------------------------------------------------------------
